@@ -127,6 +127,18 @@ def acceptedViolation (ratio : Option Ratio) (splitOf : Denom → Nat) (ids : Li
     some "app_holds"
   else none
 
+/-- "At most one order — **the last of its list**, and only if it allows it — is partially filled", for
+"every ordering of the ids in the request": `lists` = the id lists of the accepted message *as the
+request gave them* (asks and bids of a market settlement, the one list of a user fill).  An order that
+the message names and that is still open afterwards (it was filled in part — `app_partial_*` judges
+its remainder) must be the last id of one of the lists.  Independent of how the implementation
+orders, loads or matches the orders: it only reads the request and the two dumps. -/
+def partialLastViolation (lists : List (List Nat)) (before after : Dump) : Option String :=
+  if lists.any (fun l => l.any fun id =>
+      before.orders.any (·.id = id) && after.orders.any (·.id = id) &&
+      !(lists.any fun l' => decide (l'.getLast? = some id))) then some "app_partial_not_last"
+  else none
+
 /-- a rejected message moves nothing -/
 def rejectedViolation (before after : Dump) : Option String :=
   if before ≠ after then some "app_rejected_moves" else none
